@@ -56,7 +56,8 @@ STATES_MEASURE = "distinct (entry point, breaker pre-state, termination kind, pl
 BUDGETS = {"quick": (2400, 90), "thorough": (130000, 285)}
 SHRINK_CAP = 150
 OP_KINDS = [("abort", None), ("base", "KeyboardInterrupt"), ("base", "SystemExit"), ("base", "GeneratorExit"),
-            ("base", "CancelledError"), ("nested_coe", None), ("nested_ree", None)]
+            ("base", "CancelledError"), ("nested_coe", None), ("nested_ree", None),
+            ("base", "HybridCancelled"), ("base", "HybridInterrupt"), ("base", "HybridExit"), ("hostile_status", None)]
 SLEEP_EXC = ["KeyboardInterrupt", "SystemExit", "CancelledError", "GeneratorExit", "RuntimeError"]
 CALLBACKS = ["classifier", "result_classifier", "attempt_start", "attempt_end", "strategy", "abort_if", "handler"]
 R_US = 2_000_000
@@ -83,6 +84,8 @@ def gen(seed, tier="quick"):
     scn["post"] = [["adv", R_US + 1_000_000], ["allow"]]  # strictly past the timeout: immune to float rounding at the boundary
     if scn["mode"] == "async":
         scn["place"]["bs_async"] = r.choice([False, True, True, "aw"])
+    if r.random() < 0.15:
+        scn["cfg"]["breaker"]["falsy"] = True      # a breaker subclass that is falsy whenever it is not CLOSED
     if scn["entry"] != "Policy.noretry" and r.random() < 0.15:
         scn["cfg"]["attempt_timeout_us"] = 3_600_000_000   # never fires; exercises _call_with_timeout / asyncio.wait_for
     return scn
